@@ -3,7 +3,7 @@
 import json, glob, os, re
 V = os.path.dirname(os.path.dirname(os.path.abspath(__file__)))
 rows = []
-for d in sorted(glob.glob(os.path.join(V, "seeded", "*"))):
+for d in sorted(x for x in glob.glob(os.path.join(V, "seeded", "*")) if os.path.isdir(x)):
     m = json.load(open(os.path.join(d, "meta.json")))
     notes = open(os.path.join(d, "notes.md")).read().strip().split("\n")
     title = next((l.strip("# ").strip() for l in notes if l.strip()), "")
